@@ -84,8 +84,8 @@ PROPS = {
         "trusted": ["the composition of the per-step lemmas along a whole swap, and for every swap of every history, is proved in the model (Growth.swap_fee_growth, Reach.history_fee_growth); the chain from growth-inside to a position's credited fees across several updates is checked by the shadow-ledger oracle (exact pro-rata shares from the step trace) and the model correspondence"],
     },
     "C11": {
-        "lean_modules": ["WP.Props.C11", "WP.Props.RewardPath", "WP.Props.ReachGrowth"],
-        "lean_support": ["WP.Props.C07", "WP.Props.GrowthPath", "WP.Props.Reach", "WP.Props.SwapPath", "WP.Props.FeePath", "WP.Props.PathBase"],
+        "lean_modules": ["WP.Props.C11", "WP.Props.RewardPath", "WP.Props.ReachGrowth", "WP.Props.PositionRewards"],
+        "lean_support": ["WP.Props.PositionFees", "WP.Props.C07", "WP.Props.GrowthPath", "WP.Props.Reach", "WP.Props.SwapPath", "WP.Props.FeePath", "WP.Props.PathBase"],
         "families": [("remis", 40000, 2000000), ("hist", 10000, 500000)],
         "history": True,
         "rule": "remis: next_whirlpool_reward_infos + Whirlpool::update_emissions on arbitrary reward states (0-3 initialized rewards, rates 0 / huge, growths near wrap-around, zero liquidity, zero / negative / huge elapsed time, every index incl. 3): every initialized reward must be settled at its OLD rate (exact big-integer oracle), only the addressed reward gets the new rate; hist op xrew: set_reward_emissions, collect_reward / collect_reward_v2 and collect_protocol_fees / _v2 executed through the REAL entrypoint on a fixture of the current state (right key / stranger / no signature; emission rates around the one-day vault bound; reward mints with transfer fees): result, amounts, what stays owed and the settled pool state compared with the Lean model and the manager-level rule; hist: random histories (40-100 ops after each `H init`) on a real Whirlpool (fixed / dynamic / mixed tick arrays; Anchor or Pinocchio liquidity path per op; fee accumulators started anywhere in u128 incl. just below wrap-around); the whole state digest is compared with the Lean model after every op and the implementation-side oracles (hist_oracle.rs) run after every op; non-trivial = a successful op; distinct by hash of (op line, clock)",
